@@ -166,6 +166,17 @@ CHECKS = {
             "enum members are integers under the default enum style; C++ rules (destructors, vtables, templates) are exercised "
             "through C07's fix-point hooks and C01's compile check rather than here.",
             "6/C08"),
+    "C05": ("exploration",
+            "exhaustive enumeration of macro expressions up to depth 1 (every unary operator x every literal, every binary operator "
+            "x every pair of a literal sub-alphabet, ternaries, casts, sizeof, references, characters, strings), enum value tuples x "
+            "underlying types x 7 styles x 2 x 2 options, const variables; x 5 macro option variants; oracle = clang constant folding",
+            "Every emitted constant is compared with the value and C type clang itself folds for the same header (LLVM IR, nothing "
+            "executed): the value must be equal and the Rust type's range must contain it; omission is acceptable. Mismatches are "
+            "attributed to the known untyped-wrapping-i64 evaluation of `cexpr` only when bindgen's value equals the M64 reference "
+            "evaluator's prediction for that expression.",
+            "Expressions clang diagnoses (overflow, bad shifts, division by zero) are excluded; float macros are not value-checked; "
+            "depth-2 expressions of the design are not generated.",
+            "6/C05"),
 }
 
 PENDING = set()  # built but unchanged-tree findings not yet triaged: not claimed until the quick tier is clean
